@@ -48,6 +48,7 @@ class ClientRun:
             "10.0.0.1", 6053, "pw" if cfg.get("login") else None, keepalive=cfg.get("K", 20000) / 1000.0,
             noise_psk=base64.b64encode(self.w.psk).decode() if self.w.noise else None,
         )
+        self.w.expected_password = "pw" if cfg.get("login") else None
         if cfg.get("debug"):
             self.client.set_debug(True)  # debug-logging paths on: behaviour must not depend on them
         self.rows: list[dict] = []
